@@ -124,10 +124,10 @@ def c10_req(nonev: int, ins: bool, ma: int, mb: int, mc: int,
 def c10_shapes(shape: int, mx: int, my: int, m2: int, bx: bool, by: bool, b2: bool,
                vx: int, vy: int, v2: int, cx: int, cy: int, c2: int, ca: int) -> bool:
   """
-  pre: 0 <= shape < 5 and 0 <= mx < 3 and 0 <= my < 3 and 0 <= m2 < 4
+  pre: 0 <= shape < 6 and 0 <= mx < 3 and 0 <= my < 3 and 0 <= m2 < 4
   """
   world.fresh()
-  shape = rt.pick(shape, 5)
+  shape = rt.pick(shape, 6)
   mx = rt.pick(mx, 3)   # **kwargs name x: absent / REQUIRED / value
   my = rt.pick(my, 3)
   m2 = rt.pick(m2, 4)
@@ -170,6 +170,26 @@ def c10_shapes(shape: int, mx: int, my: int, m2: int, bx: bool, by: bool, b2: bo
       if v is R:
         return False
     return rt.same('a', args[0], ca) and kwargs == want
+  if shape == 5:
+    # a registered method of a registered class (its selector was re-keyed under the class)
+    if bx: gin.bind_parameter('vw.ReqM.run.steps', vx)
+    if by: gin.bind_parameter('vw.ReqM.run.seed', vy)
+    obj = gin.get_configurable(world.ReqM)()
+    try:
+      obj.run()
+    except Exception as e:
+      exc = e
+    missing = [n_ for n_, b_ in (('steps', bx), ('seed', by)) if not b_]
+    if missing:
+      if not isinstance(exc, RuntimeError) or world.LOG:
+        with rt.native():
+          return rt.no('expected RuntimeError, got %r' % (exc,))
+      head, names = _parse_missing(str(exc))
+      with rt.native():
+        return (names == missing and 'run`' in head) or rt.no('message %r' % str(exc))
+    if exc is not None or len(world.LOG) != 1:
+      return False
+    return rt.same('steps', world.LOG[0][1][0], vx) and rt.same('seed', world.LOG[0][1][1], vy)
   if shape in (1, 3, 4):
     # class: b has signature REQUIRED; m2: omitted / pos REQUIRED / kw REQUIRED / value
     # (shape 1: @gin.configurable class; 3: @gin.register class reached through get_configurable;
@@ -304,10 +324,10 @@ HARNESSES = {
         anchors=['gin.config:gin_wrapper'],
         smoke=[dict(shape=0, mx=1, my=1, m2=1, bx=False, by=False, b2=False, vx=1, vy=2,
                     v2=3, cx=4, cy=5, c2=6, ca=7)],
-        tiers={'quick': dict(split=dict(shape=[0, 1, 2, 3, 4]), budget_s=100),
-               'thorough': dict(split=dict(shape=[0, 1, 2, 3, 4], m2=[0, 1, 2, 3]), budget_s=300)},
+        tiers={'quick': dict(split=dict(shape=[0, 1, 2, 3, 4, 5]), budget_s=100),
+               'thorough': dict(split=dict(shape=[0, 1, 2, 3, 4, 5], m2=[0, 1, 2, 3]), budget_s=300)},
         bounds='**kwargs names marked REQUIRED in both keyword orders; classes with signature '
-               'REQUIRED (@configurable, @register reached through get_configurable, external_configurable); REQUIRED at each *args position'),
+               'REQUIRED (@configurable, @register reached through get_configurable, external_configurable); REQUIRED at each *args position; a registered method (re-keyed under its registered class) with signature REQUIRED'),
     'c10_register': dict(
         fn='c10_register',
         anchors=['gin.config:_get_validated_required_kwargs', 'gin.config:_make_configurable'],
